@@ -16,6 +16,7 @@ package main
 // (R01.4, the pool hand-off rule, is an obligation of C02 as well and is re-checked here.)
 
 import (
+	"os"
 	"fmt"
 	"go/token"
 	"go/types"
@@ -44,6 +45,16 @@ func isMutexType(t types.Type) bool {
 // locOf: identity of the memory location addressed by a FieldAddr chain: (owner type or global
 // name, field path) plus the root value.
 func (w *World) locOf(addr ssa.Value) (owner string, path string, root ssa.Value, ok bool) {
+	// a package-level scalar (counter, flag) addressed directly
+	if g, isG := addr.(*ssa.Global); isG && g.Pkg != nil && g.Pkg.Pkg.Path() == twigPath {
+		_, isSt := deref(g.Type()).Underlying().(*types.Struct)
+		if n, isN := deref(g.Type()).(*types.Named); isN && n.Obj().Pkg() != nil && n.Obj().Pkg().Path() == "sync/atomic" {
+			isSt = false // atomic.Int32 and friends are scalars with methods
+		}
+		if !isSt {
+			return g.Name(), "(value)", g, true
+		}
+	}
 	root, path, ok = addrPath(addr)
 	if !ok {
 		return "", "", nil, false
@@ -438,7 +449,7 @@ func checkC02(w *World, r *Report) {
 	r.Counts["reads of written shared locations"] = nR
 
 	checkR02_2(w, r)
-	checkSharedCounters(w, r, fns, reach, isShared, roots)
+	checkSharedCounters(w, r, "R02.4", fns, reach, isShared, roots)
 	checkLockLeaks(w, r, la, "R02.3")
 	// the pool hand-off rule
 	checkR01_4(w, r)
@@ -709,10 +720,11 @@ func (w *World) confinedTypes() map[string]bool {
 // counter race-free, not per-call: a nesting depth, an in-flight count or a budget kept on the
 // engine is the sum over all goroutines.  (Cache sizes that only decide whether to evict are
 // not affected: eviction does not return.)
-func checkSharedCounters(w *World, r *Report, fns []*ssa.Function, reach map[*ssa.Function]bool, isShared func(string, ssa.Value) bool, roots []*ssa.Function) {
+func checkSharedCounters(w *World, r *Report, rule string, fns []*ssa.Function, reach map[*ssa.Function]bool, isShared func(string, ssa.Value) bool, roots []*ssa.Function) {
+	// counters, flags, remembered names: any basic-typed location
 	isInt := func(t types.Type) bool {
-		b, ok := t.Underlying().(*types.Basic)
-		return ok && b.Info()&types.IsInteger != 0
+		_, ok := t.Underlying().(*types.Basic)
+		return ok
 	}
 	isAtomicInt := func(t types.Type) bool {
 		n, ok := t.(*types.Named)
@@ -725,6 +737,14 @@ func checkSharedCounters(w *World, r *Report, fns []*ssa.Function, reach map[*ss
 			return "", false, false, false
 		}
 		name := f.Name()
+		if sig, isSig := f.Type().(*types.Signature); isSig && sig.Recv() != nil {
+			// methods of atomic.Int32/Int64/Uint32/…/Bool/Value/Pointer[T]
+			if name == "Load" || name == "Store" || name == "Add" || name == "Swap" || name == "CompareAndSwap" || name == "And" || name == "Or" {
+				// same classification as the functions below
+			} else {
+				return "", false, false, false
+			}
+		}
 		switch {
 		case strings.HasPrefix(name, "Add"), strings.HasPrefix(name, "Swap"), strings.HasPrefix(name, "CompareAndSwap"), strings.HasPrefix(name, "And"), strings.HasPrefix(name, "Or"):
 			writes, reads = true, true
@@ -736,6 +756,9 @@ func checkSharedCounters(w *World, r *Report, fns []*ssa.Function, reach map[*ss
 			return "", false, false, false
 		}
 		owner, path, root, lok := w.locOf(c.Common().Args[0])
+		if os.Getenv("TWIGCHECK_DEBUG") != "" {
+			fmt.Fprintf(os.Stderr, "atomicOp %s in %s: loc ok=%v owner=%s path=%s\n", name, c.Parent().Name(), lok, owner, path)
+		}
 		if !lok || !isShared(owner, root) {
 			return "", false, false, false
 		}
@@ -817,8 +840,33 @@ func checkSharedCounters(w *World, r *Report, fns []*ssa.Function, reach map[*ss
 					}
 				case *ssa.Extract:
 					ops = []ssa.Value{x.Tuple}
+				case *ssa.IndexAddr:
+					ops = []ssa.Value{x.Index}
+				case *ssa.Index:
+					ops = []ssa.Value{x.Index}
+				case *ssa.Lookup:
+					ops = []ssa.Value{x.Index}
+				case *ssa.Slice:
+					ops = []ssa.Value{x.Low, x.High}
+				case *ssa.MakeInterface:
+					ops = []ssa.Value{x.X}
+				case *ssa.Call:
+					// what a function computes from the counter (which layout to parse with,
+					// which bucket to use) carries it; logging and formatting calls return
+					// nothing that is used
+					if _, isB := x.Call.Value.(*ssa.Builtin); !isB {
+						ops = x.Call.Args
+					}
+				}
+				if u, isU := in.(*ssa.UnOp); isU && u.Op == token.MUL {
+					if _, fromIdx := u.X.(*ssa.IndexAddr); fromIdx {
+						ops = []ssa.Value{u.X}
+					}
 				}
 				for _, o := range ops {
+					if o == nil {
+						continue
+					}
 					if l := tainted[o]; l != "" {
 						tainted[v] = l
 						changed = true
@@ -839,6 +887,15 @@ func checkSharedCounters(w *World, r *Report, fns []*ssa.Function, reach map[*ss
 			default:
 				return
 			}
+			if ret, isRet := in.(*ssa.Return); isRet {
+				for _, res := range ret.Results {
+					if loc := tainted[res]; loc != "" {
+						n++
+						r.bad(rule, ssaName(fn), "result computed from the shared location "+loc, w.posOf(in.Pos()), "what this function returns is computed from "+loc+", a process- or engine-wide value written (at "+written[loc]+") by calls that may run earlier or concurrently ("+strings.Join(w.pathTo(roots, fn), " → ")+"): the same input gives different results depending on what was rendered before")
+						return
+					}
+				}
+			}
 			for _, cond := range controllingConds(in) {
 				var facts []condFact
 				expandCond(cond, true, &facts, 0)
@@ -846,7 +903,7 @@ func checkSharedCounters(w *World, r *Report, fns []*ssa.Function, reach map[*ss
 				for _, cf := range facts {
 					if loc := tainted[cf.v]; loc != "" {
 						n++
-						r.bad("R02.4", ssaName(fn), "return decided by the shared counter "+loc, w.posOf(in.Pos()), "whether this function returns here depends on "+loc+", an integer kept on a shared object and written (at "+written[loc]+") by calls that may run concurrently ("+strings.Join(w.pathTo(roots, fn), " → ")+"): the value is the sum over all goroutines using the engine, so what one call returns depends on how many others are in flight")
+						r.bad(rule, ssaName(fn), "return decided by the shared counter "+loc, w.posOf(in.Pos()), "whether this function returns here depends on "+loc+", an integer kept on a shared object and written (at "+written[loc]+") by calls that may run concurrently ("+strings.Join(w.pathTo(roots, fn), " → ")+"): the value is the sum over all goroutines using the engine, so what one call returns depends on how many others are in flight")
 						return
 					}
 				}
@@ -855,6 +912,6 @@ func checkSharedCounters(w *World, r *Report, fns []*ssa.Function, reach map[*ss
 	}
 	r.Counts["shared integer locations written from the concurrent roots"] = len(written)
 	if n == 0 {
-		r.ok("R02.4", "(package)", "no return is decided by a shared counter", "-", fmt.Sprintf("%d shared integer location(s) written from the concurrent roots; none of them controls a return or panic", len(written)), len(written) > 0)
+		r.ok(rule, "(package)", "no return is decided by a shared counter", "-", fmt.Sprintf("%d shared integer location(s) written from the concurrent roots; none of them controls a return or panic", len(written)), len(written) > 0)
 	}
 }
